@@ -16,11 +16,10 @@ from `New` on an empty database with any window. `stepH` runs the code **with
   height and by id.
 * `retention_bounded` — **false** for the code as it is (known findings
   `retention-exceeds-window-after-gap`, `…-after-out-of-window-save`): `retention_counterexample_gap`,
-  `retention_counterexample_save`. `retention_bounded_partial` proves the bound for the blocks the
-  code still looks at: after every accept with a pruning step nothing is left at the pruned height,
-  and after every restart nothing is left below `last - window` (what is missing: the bound on the
-  *number* of retained blocks for gap-free histories, which needs the sortedness of the startup
-  iterator and a counting argument; it is checked by the oracle on every run instead).
+  `retention_counterexample_save`. `retention_bounded_partial` proves the bound `retained ≤ window+1`
+  (window > 0) for all gap-free histories (`gapFree`: first accept on an empty database, every later
+  accept at last+1, saves at or below last and strictly inside the window, restarts with any window
+  anywhere) via the invariant `Tidy` (window plus at most one straggler at last-window).
 -/
 namespace HyperModel.Props.C19
 open HyperModel.ChainIndex HyperModel.ChainIndexProofs
@@ -246,30 +245,193 @@ theorem retention_counterexample_save :
     retained (runH testChain (init 2) [.accept 20, .save 19, .save 18, .save 17, .accept 21, .accept 22]) = 4 := by
   decide
 
-/-- What the code does guarantee (partial; the count bound `retained ≤ window+1` is false in
-general, see above): after an accept at `h > window > 0` nothing is stored at `h - window`;
-after a restart nothing non-genesis is stored that the startup loop visited below
-`last - window`. -/
+/-- Gap-free histories (state: last accepted height, configured window): every accept is the
+first one on an empty database or at `last + 1`; historical saves happen after the first accept, at
+or below `last` and strictly inside the window; restarts with any window are allowed anywhere. -/
+def gapFree : Option Nat → Nat → List HOp → Prop
+  | _, _, [] => True
+  | none, w, .accept h :: r => gapFree (some h) w r
+  | some L, w, .accept h :: r => h = L + 1 ∧ gapFree (some h) w r
+  | none, _, .save _ :: _ => False
+  | some L, w, .save h :: r => (h ≤ L ∧ (h = 0 ∨ w = 0 ∨ L < h + w)) ∧ gapFree (some L) w r
+  | l, _, .restart w' :: r => gapFree l w' r
+
+/-- the retained non-genesis blocks lie in the window, except for at most one straggler
+(the block at `last - window` kept by a restart) -/
+def Tidy (c : CI) : Prop :=
+  match c.db.last with
+  | none => ∀ x, ¬ Stored c.db x
+  | some L => ∃ st, ∀ x, Stored c.db x → x = 0 ∨ (x ≤ L ∧ (c.w = 0 ∨ L < x + c.w ∨ x = st))
+
+theorem tidy_step {chain : Nat → Block} (hc : Chain chain) {c : CI} (hi : Inv chain c.db)
+    (hw : c.w < two64) (ht : Tidy c) (op : HOp) (hop : op.ok64) (r : List HOp)
+    (hg : gapFree c.db.last c.w (op :: r)) :
+    Tidy (stepH chain c op).1 ∧ gapFree (stepH chain c op).1.db.last (stepH chain c op).1.w r := by
+  cases op with
+  | accept h =>
+    obtain ⟨_, h2, _, h4, h5⟩ := accept_spec hc c hi hw h hop
+    simp only [stepH]
+    unfold Tidy at ht ⊢
+    rw [h4, h2]
+    cases hl : c.db.last with
+    | none =>
+      rw [hl] at ht hg
+      refine ⟨⟨0, ?_⟩, hg⟩
+      intro x hx
+      rcases ((h5 x).mp hx).1 with e | e
+      · right; subst e; omega
+      · exact absurd e (ht x)
+    | some L =>
+      rw [hl] at ht hg
+      obtain ⟨st, hst⟩ := ht
+      obtain ⟨hh, hg'⟩ := hg
+      refine ⟨⟨st, ?_⟩, hg'⟩
+      intro x hx
+      obtain ⟨hx1, hx2⟩ := (h5 x).mp hx
+      rcases hx1 with e | e
+      · right; subst e; omega
+      · rcases hst x e with e0 | ⟨e1, e2⟩
+        · exact Or.inl e0
+        · by_cases hx0 : x = 0
+          · exact Or.inl hx0
+          · right
+            refine ⟨by omega, ?_⟩
+            rcases e2 with e2 | e2 | e2
+            · exact Or.inl e2
+            · by_cases hxe : x + c.w = L + 1
+              · exact absurd ⟨by omega, by omega, by omega⟩ hx2
+              · right; left; omega
+            · exact Or.inr (Or.inr e2)
+  | save h =>
+    obtain ⟨_, h2, _, h4, h5⟩ := save_spec hc c hi h
+    simp only [stepH]
+    unfold Tidy at ht ⊢
+    rw [h4, h2]
+    cases hl : c.db.last with
+    | none => rw [hl] at hg; exact absurd hg (by simp [gapFree])
+    | some L =>
+      rw [hl] at ht hg
+      obtain ⟨st, hst⟩ := ht
+      obtain ⟨hh, hg'⟩ := hg
+      refine ⟨⟨st, ?_⟩, hg'⟩
+      intro x hx
+      rcases (h5 x).mp hx with e | e
+      · subst e
+        rcases hh.2 with e0 | e0 | e0
+        · exact Or.inl e0
+        · exact Or.inr ⟨hh.1, Or.inl e0⟩
+        · exact Or.inr ⟨hh.1, Or.inr (Or.inl e0)⟩
+      · exact hst x e
+  | restart w =>
+    obtain ⟨_, h2, _, h4, _⟩ := restart_spec hc c hi w
+    have h5 := restart_stored hc c hi w
+    simp only [stepH]
+    unfold Tidy at ht ⊢
+    rw [h4, h2]
+    have hg' : gapFree c.db.last w r := by
+      cases hl : c.db.last <;> rw [hl] at hg <;> exact hg
+    refine ⟨?_, hg'⟩
+    cases hl : c.db.last with
+    | none =>
+      rw [hl] at ht
+      intro x hx
+      exact ht x ((h5 x).mp hx).1
+    | some L =>
+      rw [hl] at ht
+      obtain ⟨st, hst⟩ := ht
+      refine ⟨L - w, ?_⟩
+      intro x hx
+      obtain ⟨hx1, hx2⟩ := (h5 x).mp hx
+      rcases hst x hx1 with e0 | ⟨e1, _⟩
+      · exact Or.inl e0
+      · by_cases hx0 : x = 0
+        · exact Or.inl hx0
+        · right
+          refine ⟨e1, ?_⟩
+          by_cases hw0 : w = 0
+          · exact Or.inl hw0
+          · by_cases hLw : L ≤ w
+            · right; left; omega
+            · have hthr : cleanupThr w c.db.last = some (L - w) := by
+                simp [cleanupThr, hl, hw0, hLw]
+              have := hx2 _ hthr
+              right
+              by_cases hlt : L < x + w
+              · exact Or.inl hlt
+              · right; omega
+
+theorem tidy_run {chain : Nat → Block} (hc : Chain chain) (ops : List HOp) :
+    ∀ {c : CI}, Inv chain c.db → c.w < two64 → NodupKeys c.db → Tidy c → (∀ op ∈ ops, op.ok64) →
+      gapFree c.db.last c.w ops →
+      Tidy (runH chain c ops) ∧ NodupKeys (runH chain c ops).db := by
+  induction ops with
+  | nil => intro c _ _ hn ht _ _; exact ⟨ht, hn⟩
+  | cons op r ih =>
+    intro c hi hw hn ht hok hg
+    have hop := hok op List.mem_cons_self
+    obtain ⟨t1, t2⟩ := tidy_step hc hi hw ht op hop r hg
+    have hl : Link c ⟨c.w, c.db.last, []⟩ := ⟨rfl, rfl, by intro h hh; simp at hh⟩
+    obtain ⟨a, b, _, _⟩ := step_link hc hi hw hl op hop
+    exact ih a b (nodup_step chain c op hn) t1 (fun o ho => hok o (List.mem_cons_of_mem _ ho)) t2
+
+/-- PARTIAL (gap-free histories; the bound is false in general, see the counterexamples above):
+no more than window+1 non-genesis blocks are retained (window 0 = pruning switched off). -/
 theorem retention_bounded_partial {chain : Nat → Block} (hc : Chain chain) (w0 : Nat) (hw0 : w0 < two64)
-    (ops : List HOp) (hok : ∀ op ∈ ops, op.ok64) (h : Nat) (hh : h < two64) :
+    (ops : List HOp) (hok : ∀ op ∈ ops, op.ok64) (hg : gapFree none w0 ops) :
     let c := runH chain (init w0) ops
-    let c' := (stepH chain c (.accept h)).1
-    0 < c.w → c.w < h → getBlockIDAtHeight c' (h - c.w) = none ∧ getBlockByHeight c' (h - c.w) = none := by
-  intro c c' h0 h1
-  obtain ⟨hi, hl, _⟩ := run_link hc ops (inv_init chain w0) hw0 (link_init w0) hok
-  have hwc : c.w < two64 := by omega
-  obtain ⟨_, _, h3, _, h5⟩ := accept_spec hc c hi hwc h hh
-  have hns : ¬ Stored c'.db (h - c.w) := by
-    intro hs
-    exact ((h5 _).mp hs).2 ⟨h0, h1, rfl⟩
-  have e1 : getBlockIDAtHeight c' (h - c.w) = none := by
-    unfold Stored at hns
-    exact Classical.not_not.mp hns
-  refine ⟨e1, ?_⟩
-  have h3' : Inv chain c'.db := h3
-  unfold getBlockByHeight
-  rw [h3'.i2]
-  unfold getBlockIDAtHeight at e1
-  rw [e1]; rfl
+    c.w ≠ 0 → retained c ≤ c.w + 1 := by
+  intro c hw
+  have hn0 : NodupKeys (init w0).db := by simp [NodupKeys, init, akeys]
+  have ht0 : Tidy (init w0) := by
+    simp only [Tidy, init]
+    intro x hx
+    exact hx rfl
+  obtain ⟨ht, hn⟩ : Tidy c ∧ NodupKeys c.db := tidy_run hc ops (inv_init chain w0) hw0 hn0 ht0 hok hg
+  have hnd : ((akeys c.db.hId).filter (· ≠ 0)).Nodup := hn.sublist List.filter_sublist
+  have hst : ∀ x ∈ (akeys c.db.hId).filter (· ≠ 0), Stored c.db x ∧ x ≠ 0 := by
+    intro x hx
+    simp only [List.mem_filter, ne_eq, decide_not, Bool.not_eq_eq_eq_not, Bool.not_true,
+      decide_eq_false_iff_not] at hx
+    exact ⟨(mem_akeys_iff _ _).mp hx.1, hx.2⟩
+  unfold retained
+  unfold Tidy at ht
+  cases hl : c.db.last with
+  | none =>
+    rw [hl] at ht
+    cases hk : (akeys c.db.hId).filter (· ≠ 0) with
+    | nil => simp
+    | cons a r =>
+      have := hst a (by rw [hk]; exact List.mem_cons_self)
+      exact absurd this.1 (ht a)
+  | some L =>
+    rw [hl] at ht
+    obtain ⟨st, hstr⟩ := ht
+    have h1 := length_filter_ne_of_nodup _ st hnd
+    have h2 : (((akeys c.db.hId).filter (· ≠ 0)).filter (· ≠ st)).length ≤ c.w := by
+      apply length_le_of_nodup_range c.w (L + 1 - c.w) _ (hnd.sublist List.filter_sublist)
+      intro x hx
+      rw [List.mem_filter] at hx
+      have hxs := hst x hx.1
+      have hne : x ≠ st := by simpa using hx.2
+      rcases hstr x hxs.1 with e | ⟨e1, e2⟩
+      · exact absurd e hxs.2
+      · rcases e2 with e2 | e2 | e2
+        · exact absurd e2 hw
+        · omega
+        · exact absurd e2 hne
+    omega
+
+/-- non-vacuity: consecutive accepts from genesis, an in-window backfill, restarts with other windows -/
+example : gapFree none 2 [.accept 0, .accept 1, .accept 2, .save 1, .restart 1, .accept 3, .restart 5, .accept 4] := by
+  simp [gapFree]
+
+/-- after state sync: first accept at 100, backfill 99, then consecutive accepts -/
+example : gapFree none 2 [.accept 100, .save 99, .accept 101, .accept 102, .restart 2] := by
+  simp [gapFree]
+
+/-- the bound is tight (straggler): window 5, accepts 0..5, restart with window 2 keeps 3,4,5,
+accept 6 prunes 4 → 3, 5, 6 retained = window+1 -/
+example : retained (runH testChain (init 5) [.accept 0, .accept 1, .accept 2, .accept 3, .accept 4,
+    .accept 5, .restart 2, .accept 6]) = 3 := by decide
 
 end HyperModel.Props.C19
